@@ -1,5 +1,5 @@
 """Table from which tools/gen_manifest.py writes MANIFEST.json."""
-FIX_COMMITS = ["77a8511 (C20)", "5ffb491 (C06)", "c8070ac (C06)", "17c5c88 (C10)", "0f02627 (C12/C11)", "b090335 (C12)", "379af9d (C11)", "b049858 (C09/C19)", "04ee588 (C07)", "f98e878 (C07)", "bda319f (C04)"]
+FIX_COMMITS = ["77a8511 (C20)", "5ffb491 (C06)", "c8070ac (C06)", "17c5c88 (C10)", "0f02627 (C12/C11)", "b090335 (C12)", "379af9d (C11)", "b049858 (C09/C19)", "04ee588 (C07)", "f98e878 (C07)", "bda319f (C04)", "8424b07 (C02/C18)"]
 
 CHECKS = {
     "C20": {
@@ -179,6 +179,26 @@ CHECKS = {
                 "get_children/get_parent inverse maps (R14e).",
         "note": "Not decided: y in [0,1], positivity/monotonicity of cross sections, sampled distributions, secondary tables. The GQRS "
                 "antiparticle total differs from CC+NC by 1e-38 relative 1e-3; the property names the default model only.",
+    },
+    "C02": {
+        "technique": "static analysis: abstract interpretation in an affine (point vs vector) domain and a swap-parity domain + decision-table rules",
+        "text": "Affine domain: with the horizontal components of both endpoints of translation weight 1, every quantity of the 4 path and 4 "
+                "tracer classes that must not change under a common horizontal shift comes out with weight 0 and the coordinates with weight 1; "
+                "a definite mixed value names the statement that creates it (R02a, sufficient for translation invariance, all geometries). "
+                "Parity domain: the ten quantities that decide existence and solution count of both gradient tracers are symmetric under "
+                "exchanging the endpoints, with the pi - angle mirror and Snell conversion of the launch angle in place (R02b). Every "
+                "expected_solutions table has 0 or 2 True and exists == True in it (R02c); uniform/layered exists <=> non-empty (R02d).",
+        "note": "Not decided: equality of lengths/times/attenuations of the swapped path, azimuth rotation (only rho typed), non-converged root "
+                "searches, LayeredRayTracer.solutions as a whole (its point construction is R18d). Trusted: domain summary tables.",
+    },
+    "C18": {
+        "technique": "static analysis: polynomial normal form of the image-geometry formulas, clone comparison of the dzs construction, affine-domain interpretation, chain-shape rules",
+        "text": "Uniform tracer: direct points, segment-sum length, tof = n0 L / c, boundary depths valid_range[(d0(-1)^i+1)//2], proportional "
+                "horizontal shares (R18a); the five dz contributions and their direction cases are identical clones in tracer and path and "
+                "theta = arctan2(d0 sum dz, rho) (R18b); translation invariance by the affine domain (R18c); layered chain built from consecutive "
+                "points with sums/products over sub-paths (R18d, sufficient for continuity); Snell transmission with critical-angle cut-off, "
+                "hemisphere preservation and pi - angle mirror at boundaries (R18e).",
+        "note": "Not decided: equivalence of a split medium with the unsplit one, unit transmission, bracketing on the 91-angle grid.",
     },
 }
 
